@@ -90,8 +90,9 @@ int sbdf_init_array_int(sbdf_valuetype type, int count, void const* data, int co
 				
 				if (!src[i])
 				{
-					/* TODO is this really OK or is it an error? */
-					continue;
+					/* an element that is not there can neither be copied, compared, written nor released */
+					sbdf_obj_destroy(t);
+					return SBDF_ERROR_ARGUMENT_NULL;
 				}
 
 				if (calculate_lengths)
